@@ -44,6 +44,8 @@ type OutSpec struct {
 	Fam   int `json:"f"`
 	Share int `json:"s"`
 	N     int `json:"n,omitempty"`
+	// Zero: the output carries no value (legal); never applied to the last output, which takes the remainder
+	Zero bool `json:"z,omitempty"`
 }
 
 type TxSpec struct {
@@ -53,6 +55,8 @@ type TxSpec struct {
 	Seq  int       `json:"seq,omitempty"`  // 0 final, 1 satisfied relative height lock, 2 disabled lock with noise, 3 satisfied time lock
 	Lock int       `json:"lock,omitempty"` // 0 none, 1 height-1 (final), 2 MTP-1 (final)
 	Ver  int       `json:"ver,omitempty"`  // 0 -> 2
+	// Pad: that many zero-value outputs with an empty script come first (the real outputs then have high indexes)
+	Pad int `json:"pad,omitempty"`
 }
 
 type Op struct {
@@ -1085,10 +1089,15 @@ func (c *bctx) addTx(ts TxSpec, validLast bool) *wire.Tx {
 		total += mod(o.Share, 100) + 1
 	}
 	var assigned uint64
+	for i := 0; i < ts.Pad; i++ {
+		tx.Out = append(tx.Out, wire.TxOut{})
+	}
 	for i, o := range outs {
 		v := rest * uint64(mod(o.Share, 100)+1) / uint64(total)
 		if i == len(outs)-1 {
 			v = rest - assigned
+		} else if o.Zero {
+			v = 0
 		}
 		scr := c.outScript(o)
 		if consensus.Unspendable(scr) && len(outs) > 1 && i != len(outs)-1 {
